@@ -57,14 +57,14 @@ def run(tier, seed):
     return r
 
 
-def explore(prop, props, profiles, tier, seed, n_quick, n_thorough, assumptions, rule_extra=""):
+def explore(prop, props, profiles, tier, seed, n_quick, n_thorough, assumptions, rule_extra="", rotate=()):
     run = core.Run(prop, tier, seed)
     n = n_quick if tier == "quick" else n_thorough
     N = core.NCPU
     kws = []
     for (profile, frac) in profiles:
         for i in range(N):
-            kws.append(dict(prop=prop, seed=seed, shard=i, n_cases=max(20, int(n * frac)), profile=profile, props=props))
+            kws.append(dict(prop=prop, seed=seed, shard=i, n_cases=max(20, int(n * frac)), profile=profile, props=props, rotate=rotate))
     res = core.run_shards(relcheck.explore_shard, kws)
     obs = relcheck.merge_obs([o for _, o in res])
     for v, _ in res:
